@@ -284,26 +284,34 @@ def gen(rng, n, length, covered=COVERED, uni=None):
 
 
 # ------------------------------------------------------------------------------------------------ the check
-def run(ctx, n=None, length=None):
-    """called from props/C12.py: generate, run on the real class, run the model, compare line by line"""
-    logging.getLogger("claripy.backends.backend_vsa").setLevel(logging.ERROR)
-    n = n if n is not None else ctx.pick(150, 900)
-    length = length if length is not None else ctx.pick(12, 30)
+def _new_dist():
+    return {"histories": 0, "steps": 0, "merges": 0, "merges_with_model_product": 0, "concrete_constraints": 0,
+            "adds_creating_a_group": 0, "tracked": 0, "by_op": {}}
+
+
+def run_chunk(args):
+    """one worker: generate `n` histories, run them on the real class, run the model on the recorded traces, compare line by
+    line.  Returns {"dist", "broken": [(name, detail)], "l0", "distinct", "sample"}"""
+    import os
     import random
-    rng = random.Random(ctx.seed * 7919 + 12)
+    import subprocess
+    from . import common
+    seed, chunk, n, length = args
+    logging.getLogger("claripy.backends.backend_vsa").setLevel(logging.ERROR)
+    rng = random.Random(seed * 1000003 + chunk * 7919 + 12)
     uni = L.Universe(VARS)
     reg = R.Registry(uni)
     lines, expect, metas = [], [], []
-    dist = {"histories": 0, "steps": 0, "merges": 0, "merges_with_model_product": 0, "concrete_constraints": 0,
-            "adds_creating_a_group": 0, "by_op": {}, "tracked": 0}
-    l0 = []
+    res = {"dist": _new_dist(), "broken": [], "l0": [], "distinct": [], "sample": None}
+    dist = res["dist"]
     for i, hist in enumerate(gen(rng, n, length, uni=uni)):
-        track = i % 4 == 3
+        track = (chunk + i) % 4 == 3
         try:
             ls, ex, st = run_recorded(uni, reg, track, hist)
         except Exception as e:  # noqa: BLE001   the recorder could not make sense of what it saw: a broken tie
-            ctx.tie_broken("corr:composite", "recorder failed on %s: %s: %s" % (json.dumps(hist)[:600], type(e).__name__, str(e)[:300]))
-            return dist
+            res["broken"].append(("corr:composite", "recorder failed on track=%s %s: %s: %s" % (
+                track, json.dumps(hist)[:600], type(e).__name__, str(e)[:300])))
+            return res
         base = len(lines)
         lines += ls
         expect += [(base + li, e, len(metas), k) for li, e, k in ex]
@@ -314,34 +322,85 @@ def run(ctx, n=None, length=None):
         dist["merges_with_model_product"] += st["model_products"]
         dist["concrete_constraints"] += st["concrete"]
         dist["adds_creating_a_group"] += st["fresh_group"]
-        l0 += st["l0"][:2]
+        res["l0"] += st["l0"][:2]
         for d in hist:
             dist["by_op"][d["op"]] = dist["by_op"].get(d["op"], 0) + 1
         if len(hist) >= 3:
-            ctx.distinct(("composite-corr", json.dumps(hist)))
+            res["distinct"].append(common.digest(["composite-corr", track, hist]))
+    if not lines:
+        return res
+    exe = os.path.join(common.LEAN, ".lake", "build", "bin", "driver_solver")
     try:
-        out = ctx.driver(lines, exe="driver_solver", timeout=3000)
-    except RuntimeError as e:
-        ctx.tie_broken("driver", str(e)[:300])
-        return dist
+        p = subprocess.run([exe], input="\n".join(lines) + "\n", capture_output=True, text=True, timeout=3000)
+    except Exception as e:  # noqa: BLE001
+        res["broken"].append(("driver", "%s: %s" % (type(e).__name__, str(e)[:300])))
+        return res
+    if p.returncode != 0:
+        res["broken"].append(("driver", "driver crashed: " + p.stderr[-500:]))
+        return res
+    out = p.stdout.split("\n")
     bad_decl = [(l, o) for l, o in zip(lines, out) if o != "ok" and " ;; " not in o]
     if bad_decl:
-        ctx.tie_broken("corr:composite", "declaration rejected: %s -> %s" % (bad_decl[0][0][:200], bad_decl[0][1][:200]))
+        res["broken"].append(("corr:composite", "request rejected: %s -> %s" % (bad_decl[0][0][:200], bad_decl[0][1][:200])))
     for idx, e, mi, k in expect:
-        got = out[idx]
+        got = out[idx] if idx < len(out) else "<missing>"
         dist["steps"] += 1
         if got != e:
             track, hist = metas[mi]
             ge, ee = got.split(" ;; "), e.split(" ;; ")
             which = [nm for nm, a, b in zip(("answer", "bookkeeping", "children", "diagnostics"), ge + [""] * 4, ee) if a != b]
-            ctx.tie_broken("corr:composite", "track=%s %s step %d (%s differs): model=%s real=%s" % (
-                track, json.dumps(hist[:k + 1]), k, "/".join(which), got[:1500], e[:1500]))
+            res["broken"].append(("corr:composite", "track=%s %s step %d (%s differs): model=%s real=%s" % (
+                track, json.dumps(hist[:k + 1]), k, "/".join(which), got[:1500], e[:1500])))
             break
+    if expect:
+        res["sample"] = {"composite_correspondence": {"request": lines[expect[-1][0]][:300], "expected": expect[-1][1][:400]}}
+    return res
+
+
+def run(ctx, n=None, length=None, workers=1):
+    """called from props/C12.py: histories on the real class and on the model, compared after every call; on the first
+    disagreement (per worker) the tie is reported broken"""
+    import concurrent.futures as cf
+    n = n if n is not None else ctx.pick(200, 1200)
+    length = length if length is not None else ctx.pick(12, 30)
+    per = ctx.pick(20, 50)
+    args = [(ctx.seed, 500 + i, min(per, n - i * per), length) for i in range((n + per - 1) // per)]
+    if workers <= 1:
+        results = [run_chunk(a) for a in args]
+    else:
+        with cf.ProcessPoolExecutor(max_workers=workers) as ex:
+            results = list(ex.map(run_chunk, args))
+    dist = _new_dist()
+    l0 = []
+    reported = 0
+    for r in results:
+        for k, v in r["dist"].items():
+            if k == "by_op":
+                for a, b in v.items():
+                    dist["by_op"][a] = dist["by_op"].get(a, 0) + b
+            else:
+                dist[k] += v
+        for name, detail in r["broken"]:
+            if reported < 3:
+                ctx.tie_broken(name, detail)
+                reported += 1
+        l0 += r["l0"]
+        for dg in r["distinct"]:
+            ctx.distinct(dg)
+        if r["sample"]:
+            ctx.sample(r["sample"], cap=6)
     ctx.count(dist["steps"])
+    # what the tie of the composite model rests on (replaces the statement that the bookkeeping is not modelled)
+    tb = ctx.cov.get("trusted_base")
+    if isinstance(tb, list):
+        tb[:] = [t for t in tb if not ("composite bookkeeping" in t and "not modelled" in t)]
+        tb.append("composite model (Composite.lean) tied by correspondence on add / satisfiable / eval / batch_eval / min / max / solution / "
+                  "is_true / is_false / downsize of one CompositeFrontend: CPython's set iteration orders and Z3's answers are recorded "
+                  "inputs of the model; constraints of the shape `BVS != BVV` are not added (the constraint record has no field for the "
+                  "second shortcut of FullFrontend.check_satisfiability); simplify / branch / pickling of the composite and the mixins of "
+                  "SolverComposite above CompositeFrontend: oracle only")
     ctx.cov["traces_validated_against_impl"] += dist["steps"]
     ctx.cov.setdefault("input_distribution", {})["composite_correspondence"] = dist
     if l0:
         ctx.notes.append("L0 (composite correspondence): Z3 answer failed the exactness validation: %s" % json.dumps(l0[:2]))
-    if expect:
-        ctx.sample({"composite_correspondence": {"request": lines[expect[-1][0]][:300], "expected": expect[-1][1][:400]}}, cap=6)
     return dist
